@@ -9,6 +9,7 @@ for id in $ids; do
   out=$(tools/try_mutant.sh /verif/seeded/$id/patch.diff $p 2>&1)
   st=$(python3 -c "import json,sys; print(json.load(open('/verif/seeded/$id/meta.json')).get('status',''))" 2>/dev/null)
   if echo "$out" | grep -q "patch does not apply"; then echo "$id does-not-apply"
+  elif grep -q "harness-build" replays/${p}_quick_1_broken.json 2>/dev/null && echo "$out" | grep -q "no-failing-input-found"; then echo "$id does-not-compile"
   elif [ -n "$st" ] && ! echo "$out" | grep -q "^VIOLATION"; then echo "$id not-caught ($st)"
   elif echo "$out" | grep -q "^VIOLATION"; then echo "$id caught $(echo "$out" | grep -c no-failing-input-found | sed 's/^0$//;s/^1$/(broken obligation only)/')"
   else echo "$id MISSED"; fi
